@@ -191,7 +191,7 @@ WORDCH = list('abcxyzABZ019_') + list('éßΩж')
 
 def sentence(ascii_only=False):
     ch = st.sampled_from(WORDCH[:13] if ascii_only else WORDCH)
-    word = st.lists(ch, min_size=1, max_size=8).map(''.join)
+    word = st.one_of(st.lists(ch, min_size=1, max_size=8), st.lists(ch, min_size=1, max_size=8), st.lists(ch, min_size=9, max_size=140)).map(''.join)
     sep = st.sampled_from([' ', ' ', ', ', '\n', '-', '. ', '!', "'", ' (', ') '])
     return st.lists(st.tuples(word, sep), min_size=1, max_size=8).map(lambda xs: ''.join(w + s for w, s in xs))
 
@@ -201,19 +201,19 @@ def gen_case(draw):
     mode = draw(st.sampled_from(['numeral', 'word', 'affix', 'affix', 'invalid']))
     if mode == 'numeral':
         base = draw(st.integers(2, 16))
-        lo = draw(st.integers(0, 5))
-        hi = draw(st.one_of(st.none(), st.integers(max(lo, 1), lo + 3)))
+        lo = draw(st.one_of(st.integers(0, 5), st.integers(0, 5), st.sampled_from([9, 10, 11, 16, 31, 32, 33, 64, 100])))
+        hi = draw(st.one_of(st.none(), st.integers(max(lo, 1), lo + 3), st.sampled_from([lo + 9, lo + 10, 99, 100, 128, 255, 256, 1000]).filter(lambda v: v >= max(lo, 1))))
         alpha = DIGITS[:base] + DIGITS[:base].upper()
         outside = (DIGITS + 'g')[base] if base < 16 else 'g'
         ch = st.one_of(st.sampled_from(alpha), st.sampled_from(alpha), st.sampled_from(alpha), st.sampled_from([outside, outside.upper(), 'z', '_']))
-        lens = st.sampled_from([max(lo - 1, 1), max(lo, 1), lo + 1, (hi or lo + 3), (hi or lo + 3) + 1, 1])
+        lens = st.sampled_from([max(lo - 1, 1), max(lo, 1), lo + 1, (hi or lo + 3), (hi or lo + 3) + 1, 1]).map(lambda n: min(n, 1100))
         cand = lens.flatmap(lambda n: st.lists(ch, min_size=n, max_size=n).map(''.join))
         return {'mode': 'numeral', 'base': base, 'n_min': lo, 'n_max': hi, 'candidates': draw(st.lists(cand, min_size=3, max_size=10)),
                 'seps': draw(st.lists(st.sampled_from([' ', ', ', '\n', '-', '.', ' x ']), min_size=1, max_size=3))}
     if mode == 'word':
         glob = draw(st.booleans())
-        lo = draw(st.integers(1, 6))
-        hi = draw(st.one_of(st.none(), st.integers(lo, lo + 4)))
+        lo = draw(st.one_of(st.integers(1, 6), st.integers(1, 6), st.sampled_from([9, 10, 11, 16, 32, 33, 64, 100])))
+        hi = draw(st.one_of(st.none(), st.integers(lo, lo + 4), st.sampled_from([lo + 9, 99, 100, 128, 255, 256, 1000]).filter(lambda v: v >= lo)))
         return {'mode': 'word', 'min': lo, 'max': hi, 'is_global': glob, 'text': draw(sentence(ascii_only=not glob))}
     if mode == 'affix':
         glob = draw(st.booleans())
@@ -221,7 +221,7 @@ def gen_case(draw):
         if draw(st.booleans()):
             ch = st.sampled_from(WORDCH[:13] if not glob else WORDCH)
             aff = st.lists(ch, min_size=1, max_size=3).map(''.join)
-            return {'mode': 'affix', 'cls': cls, 'is_global': glob, 'affixes': draw(st.lists(aff, min_size=1, max_size=3)),
+            return {'mode': 'affix', 'cls': cls, 'is_global': glob, 'affixes': draw(st.one_of(st.lists(aff, min_size=1, max_size=3), st.lists(aff, min_size=1, max_size=3), st.lists(aff, min_size=17, max_size=130))),
                     'as_list': draw(st.booleans()), 'text': draw(sentence(ascii_only=not glob))}
         aff = dsl.literal_strategy(('meta',), 1, 4)
         return {'mode': 'affix', 'cls': cls, 'is_global': glob, 'affixes': draw(st.lists(aff, min_size=1, max_size=2)),
